@@ -31,14 +31,24 @@
 (* if the connection is still the registered one (or none is), setSession removes the discarded     *)
 (* session's filters from the trie, and the resumed session's filters are put back into the trie     *)
 (* inside handleConn's locked section (fixes/mqtt-takeover-teardown.diff).                            *)
-(* Session persistence (Session.store -> goroutine -> doStore) is modelled as immediate: the          *)
-(* harness waits until the store holds what the session holds before it lets a connection end.         *)
+(* Session persistence (Session.store -> goroutine -> SessionManager.doStore -> store.put): with       *)
+(* AsyncStore = FALSE it is immediate (the harness waits until the store holds what the session holds    *)
+(* before it lets a connection end); with AsyncStore = TRUE every store request is queued (stq) and        *)
+(* written by DoStore at any later time - a store that falls behind: the connection may end and be torn     *)
+(* down while its requests wait.  (A client connects when the store has caught up.)                          *)
 EXTENDS Integers, Sequences, FiniteSets, TLC
 
 CONSTANTS Conns,          \* connection names in the order they may connect, e.g. <<"O", "N", "M">>
           FiltersS,       \* filters a connection may subscribe
           TeardownById,   \* see above
           MaxAdmin,       \* bound on admin deletes
+          AsyncStore,     \* see above
+          StoreFifo,      \* TRUE: queued store requests take effect in the order they were made (repaired code: requests are
+                          \* numbered and doStore drops outdated ones); FALSE: the pinned tree - every request is handed over
+                          \* by a goroutine of its own and any queued request may be written next (lead generation)
+          SkipGone,       \* FALSE: the code - doStore writes every request; TRUE: doStore drops a request when no session of
+                          \* the id is in the session map any more (lead generation: must be refuted - the request of an
+                          \* acknowledged SUBSCRIBE that is still queued when the connection is torn down would be lost)
           StaleGuard      \* FALSE: the code - deleteSession acts on every delete notification; TRUE: a notification is ignored
                           \* when the store holds a session of the id again (lead generation: must be refuted - the
                           \* still connected client's own SUBSCRIBE re-stores the session before the notification arrives)
@@ -47,11 +57,11 @@ ConnSet == {Conns[i] : i \in 1..Len(Conns)}
 Idx(c) == CHOOSE i \in 1..Len(Conns) : Conns[i] = c
 
 VARIABLES kcur, kex, kclean, ksubs, kst, kdel,                         \* contract
-          pc, cl, cur, closed, smap, sess, nsid, csess, db, trie, watchQ, closeReq, admins,   \* implementation
+          pc, cl, cur, closed, smap, sess, nsid, csess, db, trie, watchQ, closeReq, admins, stq,   \* implementation
           ev                                                              \* the step just taken
 
 kvars == <<kcur, kex, kclean, ksubs, kst, kdel>>
-ivars == <<pc, cl, cur, closed, smap, sess, nsid, csess, db, trie, watchQ, closeReq, admins>>
+ivars == <<pc, cl, cur, closed, smap, sess, nsid, csess, db, trie, watchQ, closeReq, admins, stq>>
 svars == <<kvars, ivars, ev>>
 sview == <<kvars, ivars>>
 
@@ -61,7 +71,7 @@ SInit ==
     /\ kcur = "none" /\ kex = FALSE /\ kclean = FALSE /\ ksubs = {} /\ kst = [c \in ConnSet |-> "idle"] /\ kdel = FALSE
     /\ pc = [c \in ConnSet |-> "idle"] /\ cl = [c \in ConnSet |-> FALSE] /\ cur = "none"
     /\ closed = [c \in ConnSet |-> FALSE] /\ smap = 0 /\ sess = <<>> /\ nsid = 1 /\ csess = [c \in ConnSet |-> 0]
-    /\ db = NoDb /\ trie = {} /\ watchQ = 0 /\ closeReq = {} /\ admins = 0
+    /\ db = NoDb /\ trie = {} /\ watchQ = 0 /\ closeReq = {} /\ admins = 0 /\ stq = <<>>
     /\ ev = [a |-> "init"]
 
 (* ------------------------------- contract actions ------------------------------- *)
@@ -92,9 +102,23 @@ KAdminDelete ==
 (* ----------------------------- implementation actions ----------------------------- *)
 Topics(sid) == IF sid = 0 THEN {} ELSE sess[sid].topics
 
+(* Session.store: the encoded session (clean flag, topics) goes to the store - at once, or through the queue *)
+Store(clean, topics) ==
+    IF AsyncStore THEN stq' = Append(stq, [clean |-> clean, topics |-> topics]) /\ db' = db
+    ELSE db' = [ex |-> TRUE, clean |-> clean, topics |-> topics] /\ stq' = stq
+(* SessionManager.doStore takes the next request *)
+DoStore ==
+    \E i \in 1..Len(stq) :
+        /\ StoreFifo => i = 1
+        /\ stq' = SubSeq(stq, 1, i - 1) \o SubSeq(stq, i + 1, Len(stq))
+        /\ db' = IF SkipGone /\ smap = 0 THEN db ELSE [ex |-> TRUE, clean |-> stq[i].clean, topics |-> stq[i].topics]
+        /\ ev' = [a |-> "dostore"]
+        /\ UNCHANGED <<kvars, pc, cl, cur, closed, smap, sess, nsid, csess, trie, watchQ, closeReq, admins>>
+
 ConnectLocked(c, clean) ==
     /\ pc[c] = "idle"
     /\ \A i \in 1..(Idx(c) - 1) : pc[Conns[i]] # "idle"              \* connections appear in order
+    /\ stq = <<>>      \* assumption: ... and when the store has caught up
     /\ watchQ = 0      \* assumption: a client connects when no delete notification of the store is in flight (a
                        \* notification that overtakes a *re*connect is outside the property; the ones a superseded
                        \* connection's teardown produces after this point are what the property is about)
@@ -110,12 +134,12 @@ ConnectLocked(c, clean) ==
        IN /\ KConnect(c, clean, IF kdel /\ ~clean /\ Resumable THEN reuse ELSE ~clean /\ Resumable)
           /\ IF reuse
              THEN /\ csess' = [csess EXCEPT ![c] = prev] /\ smap' = prev /\ sess' = s1 /\ nsid' = n1
-                  /\ db' = [ex |-> TRUE, clean |-> s1[prev].clean, topics |-> s1[prev].topics]   \* updateEGName -> store
+                  /\ Store(s1[prev].clean, s1[prev].topics)                                      \* updateEGName -> store
                   /\ trie' = IF TeardownById THEN trie ELSE trie \cup s1[prev].topics   \* repaired: re-subscription inside the section
              ELSE /\ sess' = (IF prev # 0 THEN [s1 EXCEPT ![prev].done = TRUE] ELSE s1)
                              @@ (n1 :> [clean |-> clean, topics |-> {}, done |-> FALSE])
                   /\ csess' = [csess EXCEPT ![c] = n1] /\ smap' = n1 /\ nsid' = n1 + 1
-                  /\ db' = [ex |-> TRUE, clean |-> clean, topics |-> {}]                \* updateEGName -> store
+                  /\ Store(clean, {})                                                  \* updateEGName -> store
                   /\ trie' = IF TeardownById \/ prev = 0 THEN trie ELSE trie \ s1[prev].topics   \* repaired: discard = unsubscribe
     /\ pc' = [pc EXCEPT ![c] = IF TeardownById THEN "acked" ELSE "ready"]
     /\ ev' = [a |-> "connect", c |-> c, clean |-> clean]
@@ -124,21 +148,22 @@ ConnectLocked(c, clean) ==
 CloseAsync(c) ==
     /\ c \in closeReq /\ closeReq' = closeReq \ {c} /\ closed' = [closed EXCEPT ![c] = TRUE]
     /\ ev' = [a |-> "closeasync", c |-> c]
-    /\ UNCHANGED <<kvars, pc, cl, cur, smap, sess, nsid, csess, db, trie, watchQ, admins>>
+    /\ UNCHANGED <<kvars, pc, cl, cur, smap, sess, nsid, csess, db, trie, watchQ, admins, stq>>
 
 Resub(c) ==
     /\ pc[c] = "acked" /\ pc' = [pc EXCEPT ![c] = "ready"]
     /\ trie' = trie \cup Topics(csess[c])
     /\ ev' = [a |-> "resub", c |-> c]
-    /\ UNCHANGED <<kvars, cl, cur, closed, smap, sess, nsid, csess, db, watchQ, closeReq, admins>>
+    /\ UNCHANGED <<kvars, cl, cur, closed, smap, sess, nsid, csess, db, watchQ, closeReq, admins, stq>>
 
 (* only the owner of the id subscribes (the harness never sends on a superseded connection) *)
 Subscribe(c, f) ==
     /\ pc[c] = "ready" /\ kcur = c
+    /\ Len(stq) < 2                                    \* (bound of the model)
     /\ KSubscribe(c, f)
     /\ trie' = trie \cup {f}
     /\ sess' = [sess EXCEPT ![csess[c]].topics = @ \cup {f}]
-    /\ db' = [ex |-> TRUE, clean |-> sess[csess[c]].clean, topics |-> sess[csess[c]].topics \cup {f}]
+    /\ Store(sess[csess[c]].clean, sess[csess[c]].topics \cup {f})
     /\ ev' = [a |-> "sub", c |-> c, f |-> f]
     /\ UNCHANGED <<pc, cl, cur, closed, smap, nsid, csess, watchQ, closeReq, admins>>
 
@@ -147,10 +172,11 @@ Subscribe(c, f) ==
 (* as usual - and Session.store writes the session into the store again                                   *)
 KickedSubscribe(c, f) ==
     /\ pc[c] = "ready" /\ kst[c] = "kicked" /\ cur = c /\ ~closed[c]
+    /\ Len(stq) < 2
     /\ ksubs' = ksubs \cup {f} /\ UNCHANGED <<kcur, kex, kclean, kst, kdel>>     \* (should the deleted session be resumed after all, it holds f)
     /\ trie' = trie \cup {f}
     /\ sess' = [sess EXCEPT ![csess[c]].topics = @ \cup {f}]
-    /\ db' = [ex |-> TRUE, clean |-> sess[csess[c]].clean, topics |-> sess[csess[c]].topics \cup {f}]
+    /\ Store(sess[csess[c]].clean, sess[csess[c]].topics \cup {f})
     /\ ev' = [a |-> "ksub", c |-> c, f |-> f]
     /\ UNCHANGED <<pc, cl, cur, closed, smap, nsid, csess, watchQ, closeReq, admins>>
 
@@ -159,25 +185,25 @@ NetDrop(c) ==
     /\ KDrop(c)
     /\ pc' = [pc EXCEPT ![c] = "T1"]
     /\ ev' = [a |-> "drop", c |-> c]
-    /\ UNCHANGED <<cl, cur, closed, smap, sess, nsid, csess, db, trie, watchQ, closeReq, admins>>
+    /\ UNCHANGED <<cl, cur, closed, smap, sess, nsid, csess, db, trie, watchQ, closeReq, admins, stq>>
 
 (* ---- pinned tree: four separate steps, all keyed by the client id ---- *)
 T1(c) == /\ TeardownById /\ pc[c] = "T1" /\ pc' = [pc EXCEPT ![c] = "T2"]
          /\ IF smap # 0 THEN sess' = [sess EXCEPT ![smap].done = TRUE] /\ smap' = 0 ELSE UNCHANGED <<sess, smap>>
          /\ ev' = [a |-> "t1", c |-> c]
-         /\ UNCHANGED <<kvars, cl, cur, closed, nsid, csess, db, trie, watchQ, closeReq, admins>>
+         /\ UNCHANGED <<kvars, cl, cur, closed, nsid, csess, db, trie, watchQ, closeReq, admins, stq>>
 T2(c) == /\ TeardownById /\ pc[c] = "T2" /\ pc' = [pc EXCEPT ![c] = "T3"]
          /\ IF sess[csess[c]].clean THEN db' = NoDb /\ watchQ' = watchQ + 1 ELSE UNCHANGED <<db, watchQ>>
          /\ ev' = [a |-> "t2", c |-> c]
-         /\ UNCHANGED <<kvars, cl, cur, closed, smap, sess, nsid, csess, trie, closeReq, admins>>
+         /\ UNCHANGED <<kvars, cl, cur, closed, smap, sess, nsid, csess, trie, closeReq, admins, stq>>
 T3(c) == /\ TeardownById /\ pc[c] = "T3" /\ pc' = [pc EXCEPT ![c] = "T4"]
          /\ trie' = trie \ Topics(csess[c]) /\ closed' = [closed EXCEPT ![c] = TRUE]
          /\ ev' = [a |-> "t3", c |-> c]
-         /\ UNCHANGED <<kvars, cl, cur, smap, sess, nsid, csess, db, watchQ, closeReq, admins>>
+         /\ UNCHANGED <<kvars, cl, cur, smap, sess, nsid, csess, db, watchQ, closeReq, admins, stq>>
 T4(c) == /\ pc[c] = "T4" /\ pc' = [pc EXCEPT ![c] = "gone"]
          /\ cur' = IF cur # "none" /\ closed[cur] THEN "none" ELSE cur
          /\ ev' = [a |-> "t4", c |-> c]
-         /\ UNCHANGED <<kvars, cl, closed, smap, sess, nsid, csess, db, trie, watchQ, closeReq, admins>>
+         /\ UNCHANGED <<kvars, cl, closed, smap, sess, nsid, csess, db, trie, watchQ, closeReq, admins, stq>>
 
 (* ---- repaired code: the session part of the teardown is one section under Broker.Lock, and    *)
 (* acts only if c is still the registered connection, or nobody is registered and the session in    *)
@@ -191,7 +217,7 @@ TFix(c) ==
             /\ trie' = trie \ Topics(csess[c])
        ELSE UNCHANGED <<sess, smap, db, watchQ, trie>>
     /\ ev' = [a |-> "tfix", c |-> c]
-    /\ UNCHANGED <<kvars, cl, cur, nsid, csess, closeReq, admins>>
+    /\ UNCHANGED <<kvars, cl, cur, nsid, csess, closeReq, admins, stq>>
 
 (* deleteSession(cid): closes and unregisters whatever is registered *)
 WatchDelete ==
@@ -201,7 +227,7 @@ WatchDelete ==
        ELSE /\ closed' = IF cur # "none" THEN [closed EXCEPT ![cur] = TRUE] ELSE closed
             /\ cur' = "none"
     /\ ev' = [a |-> "watch"]
-    /\ UNCHANGED <<kvars, pc, cl, smap, sess, nsid, csess, db, trie, closeReq, admins>>
+    /\ UNCHANGED <<kvars, pc, cl, smap, sess, nsid, csess, db, trie, closeReq, admins, stq>>
 
 AdminDelete ==
     /\ admins < MaxAdmin /\ admins' = admins + 1
@@ -209,12 +235,12 @@ AdminDelete ==
     /\ KAdminDelete
     /\ db' = NoDb /\ watchQ' = watchQ + 1
     /\ ev' = [a |-> "admin"]
-    /\ UNCHANGED <<pc, cl, cur, closed, smap, sess, nsid, csess, trie, closeReq>>
+    /\ UNCHANGED <<pc, cl, cur, closed, smap, sess, nsid, csess, trie, closeReq, stq>>
 
 SNext == \/ \E c \in ConnSet : \/ \E clean \in BOOLEAN : ConnectLocked(c, clean)
                                \/ CloseAsync(c) \/ Resub(c) \/ \E f \in FiltersS : Subscribe(c, f) \/ KickedSubscribe(c, f)
                                \/ NetDrop(c) \/ T1(c) \/ T2(c) \/ T3(c) \/ T4(c) \/ TFix(c)
-         \/ WatchDelete \/ AdminDelete
+         \/ WatchDelete \/ AdminDelete \/ DoStore
 SSpec == SInit /\ [][SNext]_svars
 
 (* ------------------------- the property's clauses ------------------------- *)
@@ -234,7 +260,7 @@ AdminDeleteDisconnects == [][ev'.a = "admin" => kcur' = "none" /\ (kcur # "none"
 
 (* conformance of the implementation-shaped layer *)
 Busy(c) == pc[c] \in {"acked", "T1", "T2", "T3", "T4"}
-Quiescent == (\A c \in ConnSet : ~Busy(c)) /\ watchQ = 0 /\ closeReq = {}
+Quiescent == (\A c \in ConnSet : ~Busy(c)) /\ watchQ = 0 /\ closeReq = {} /\ stq = <<>>
 
 (* from its registration on, and whatever the older connections' teardowns do, the owner of the  *)
 (* id stays registered, keeps the live session, and its subscriptions stay routed                   *)
